@@ -27,7 +27,7 @@ func C03(r *core.Run) {
 	r.Explanation = "Membership guards and field provenance of object listings in all four backends, on all paths (not order, not the string semantics of Prefix.Match): " +
 		"(R03.1) every ObjectList.Add/AddPrefix is reachable only after a positive prefix test of the very key being added (Prefix.Match, or the HasPrefix test on the directory entry in the fs file-prefix walkers), Add only on the not-grouped arm and AddPrefix only on the grouped / directory arm; " +
 		"(R03.2) delete-marked keys are never listed and the listed Key is the iterated key; (R03.3) listed ETag and Size come from the same stored record as the Key; " +
-		"(R03.4) the two fs backends' listing helpers agree argument by argument; (R03.5) AddPrefix de-duplicates; (R03.6) a listing loop passes over a key only for the admissible reasons (no match, delete marker, prefix already reported); (R03.7) Prefix.Match splits and re-joins with the request's delimiter; (R10.5) distinct keys have distinct metadata records on the fs backends (the listed ETag is the key's own); (R02.7) deleting a nested key leaves no empty directory behind to be listed as a phantom prefix. (R03.8) a listing collected by walking the directory tree is sorted by key before it is returned. (R03.9) bolt cursor moves in the listing are examined by the loop and pruneEmptyDirs gets the object's path; (R04.4) only the entry equal to the marker is skipped after seeking."
+		"(R03.4) the two fs backends' listing helpers agree argument by argument; (R03.5) AddPrefix de-duplicates; (R03.6) a listing loop passes over a key only for the admissible reasons (no match, delete marker, prefix already reported); (R03.7) Prefix.Match splits and re-joins with the request's delimiter; (R10.5) distinct keys have distinct metadata records on the fs backends (the listed ETag is the key's own); (R02.7) deleting a nested key leaves no empty directory behind to be listed as a phantom prefix. (R03.8) a listing collected by walking the directory tree is sorted by key before it is returned. (R03.9) bolt cursor moves in the listing are examined by the loop and pruneEmptyDirs gets the object's path; (R04.4) only the entry equal to the marker is skipped after seeking. (R03.10) a search result (strings/bytes Index*) separates 'found' from 'not found' at -1: a test `> 0` drops a match at offset 0 (an empty path segment, a doubled delimiter)."
 	r.NotDecided = "ascending byte order as a value statement (only: ordered store or explicit sort by key, R03.8), the semantics of Prefix.Match, delimiters other than '/', that every live key is visited (completeness of the iteration)"
 	rule031(r)
 	rule033(r)
@@ -37,6 +37,7 @@ func C03(r *core.Run) {
 	rule037(r)
 	rule038(r)
 	rule039(r)
+	rule0310(r)
 	rule044(r)
 	rule105(r)
 	rule027(r)
@@ -938,4 +939,71 @@ func rule039(r *core.Run) {
 	if n < 4 {
 		r.Unresolved("R03.9: %d cursor moves / prune calls found (expected at least 4)", n)
 	}
+}
+
+// rule0310 — "found" starts at offset 0.
+func rule0310(r *core.Run) {
+	r.Rule("R03.10", "every comparison of a strings/bytes Index*, LastIndex* result with a constant separates 'found' (>= 0) from 'not found' (-1): the forms `> 0`, `>= 1`, `<= 0`, `< 1`, `== 0`-as-not-found merge a match at offset 0 with no match. In key handling a match at offset 0 is a real case (empty segment, doubled delimiter, leading delimiter) and is grouped differently from its neighbours when dropped")
+	n, nCmp := 0, 0
+	for _, fn := range r.P.RepoFuncs() {
+		f := fn
+		core.Instrs(f, func(in ssa.Instruction) {
+			c, ok := in.(*ssa.Call)
+			if !ok {
+				return
+			}
+			cn := r.P.CalleeName(c)
+			if !(strings.HasPrefix(cn, "strings.Index") || strings.HasPrefix(cn, "strings.LastIndex") || strings.HasPrefix(cn, "bytes.Index") || strings.HasPrefix(cn, "bytes.LastIndex")) {
+				return
+			}
+			n++
+			if c.Referrers() == nil {
+				return
+			}
+			for _, u := range *c.Referrers() {
+				b, ok := u.(*ssa.BinOp)
+				if !ok {
+					continue
+				}
+				var k int64
+				var isK bool
+				op := b.Op
+				if b.X == ssa.Value(c) {
+					k, isK = core.ConstInt(b.Y)
+				} else {
+					k, isK = core.ConstInt(b.X)
+					// normalise `k OP idx` to `idx OP' k`
+					switch op {
+					case token.LSS:
+						op = token.GTR
+					case token.GTR:
+						op = token.LSS
+					case token.LEQ:
+						op = token.GEQ
+					case token.GEQ:
+						op = token.LEQ
+					}
+				}
+				if !isK {
+					continue
+				}
+				switch op {
+				case token.EQL, token.NEQ, token.LSS, token.LEQ, token.GTR, token.GEQ:
+				default:
+					continue
+				}
+				nCmp++
+				// boundary between -1 and 0?
+				okCmp := (op == token.GEQ && k == 0) || (op == token.LSS && k == 0) || (op == token.GTR && k == -1) || (op == token.LEQ && k == -1) ||
+					(op == token.EQL && k == -1) || (op == token.NEQ && k == -1)
+				// comparisons with an offset >= 1 ask where, not whether; equality with 0 asks "at the start"
+				if k >= 2 || (op == token.EQL || op == token.NEQ) && k >= 0 {
+					okCmp = true
+				}
+				r.Check(okCmp, "R03.10", key(fname(r, f), "search result tested at the found/not-found boundary", cn, sprintf("%s %d", op, k)), pos(r, b), "found ⇔ >= 0",
+					sprintf("the result of %s is tested with `%s %d`: a match at offset 0 is treated like no match", cn, op, k))
+			}
+		})
+	}
+	r.Held("R03.10", key("repo", "search calls enumerated"), "", sprintf("%d Index/LastIndex calls, %d constant comparisons", n, nCmp))
 }
